@@ -26,6 +26,15 @@ theorem C04_latest_is_newest {α : Type} (cs : List (Check α)) (hwf : WellForme
   congr 1
   omega
 
+/-- a version with a later major number (`api.MajorMinorVersion(2, n)`, what `api.GetAPIVersion` would return for a v2 server) is
+    newer than every registered revision and behaves as the newest registered version … -/
+theorem C04_later_major {α : Type} (cs : List (Check α)) (hwf : WellFormed cs) (l : Level) (a n : Nat) (ha : 1 < a) :
+    (populate cs).evaluate l (.mm a n) = (populate cs).evaluate l .latest := PSA.C04_later_major cs hwf l a n ha
+
+/-- … and one with major 0 is older than every registered revision: no check was introduced yet, nothing runs -/
+theorem C04_earlier_major {α : Type} (cs : List (Check α)) (hwf : WellFormed cs) (l : Level) (n : Nat) :
+    (populate cs).evaluate l (.mm 0 n) = [] := PSA.C04_earlier_major cs hwf l n
+
 /-- the shipped check set is accepted by the (model of the) validator -/
 theorem C04_shipped_accepted : validateChecks shipped = true := by decide
 
@@ -63,6 +72,8 @@ example : (populate demo).evaluate .restricted (.mm 1 19) = spec demo .restricte
 #print axioms C04_resolves
 #print axioms C04_privileged
 #print axioms C04_latest_is_newest
+#print axioms C04_later_major
+#print axioms C04_earlier_major
 #print axioms C04_shipped_accepted
 #print axioms C04_refuses
 #print axioms C04_accepted_resolves
